@@ -13,6 +13,16 @@ type Param struct {
 	Name string
 	T    *Type
 	Role string // source | ctx | target
+	// Variadic: the (last, slice-typed) parameter is declared as ...Elem
+	Variadic bool
+}
+
+// goType renders the parameter type as written in a signature.
+func (pa Param) goType(p *Package, alias func(*Package) string) string {
+	if pa.Variadic && pa.T.K == KSlice {
+		return "..." + pa.T.Elem.Go(p, alias)
+	}
+	return pa.T.Go(p, alias)
 }
 
 type Method struct {
@@ -175,9 +185,9 @@ func (c *Case) params(m *Method, p *Package, alias func(*Package) string) string
 	var ps []string
 	for _, pa := range m.Params {
 		if pa.Name != "" {
-			ps = append(ps, pa.Name+" "+pa.T.Go(p, alias))
+			ps = append(ps, pa.Name+" "+pa.goType(p, alias))
 		} else {
-			ps = append(ps, pa.T.Go(p, alias))
+			ps = append(ps, pa.goType(p, alias))
 		}
 	}
 	return strings.Join(ps, ", ")
@@ -291,7 +301,7 @@ func (c *Case) Assert(i int, cv *Converter) (path, body string) {
 			}
 			var ps []string
 			for _, pa := range m.Params {
-				ps = append(ps, pa.T.Go(from, alias))
+				ps = append(ps, pa.goType(from, alias))
 			}
 			decls = append(decls, fmt.Sprintf("var _ func(%s)%s = %s%s", strings.Join(ps, ", "), c.results(m, from, alias), genQ, m.Name))
 		}
